@@ -177,6 +177,32 @@ func c16(c *Ctx) {
 						c.requireCross(load.FuncName(f)+": existing object validated", st, updDry, "ok(e.update(..., DryRunAll))")
 					} else if ok {
 						c.requireCross(load.FuncName(f)+": missing object validated", st, union(creDry, ctlFalse), "ok(e.create(..., DryRunAll)) or control==false")
+					} else if phi, isPhi := st.Val.(*ssa.Phi); isPhi {
+						// one record whose Exists is set per branch: each value is judged on the edge it arrives over
+						for i, e := range phi.Edges {
+							pred := phi.Block().Preds[i]
+							term := pred.Instrs[len(pred.Instrs)-1]
+							kv, isConst := cfgx.ConstBool(e)
+							// the arriving edge may itself be the gate (`if !control { break }`)
+							onGate := func(gs []cfgx.Edge) bool {
+								for _, g := range gs {
+									if g.From == pred && g.To() == phi.Block() {
+										return true
+									}
+								}
+								return false
+							}
+							switch {
+							case isConst && kv && onGate(updDry), isConst && !kv && onGate(union(creDry, ctlFalse)):
+								c.R.OK(load.FuncName(f)+": object validated (arriving edge)", c.pos(st.Pos()), "the value arrives over the gate edge itself")
+							case !isConst:
+								c.R.Unknown(load.FuncName(f)+": Exists literal", c.pos(st.Pos()), "Exists is not a constant on every path")
+							case kv:
+								c.requireCross(load.FuncName(f)+": existing object validated", term, updDry, "ok(e.update(..., DryRunAll))")
+							default:
+								c.requireCross(load.FuncName(f)+": missing object validated", term, union(creDry, ctlFalse), "ok(e.create(..., DryRunAll)) or control==false")
+							}
+						}
 					} else {
 						c.R.Unknown(load.FuncName(f)+": Exists literal", c.pos(st.Pos()), "Exists is not a constant")
 					}
